@@ -16,7 +16,13 @@ reached almost only on the unsliced (stride 1) sequence.  This stream closes tha
   applied to `list(range(n))`), so after EVERY op the check is position exact: str / len, IndexError exactly
   when the plain string raises, and `parent_coordinates()` (or parent_start / parent_stop of a bare view) must
   name exactly the displayed parent positions -- for a 1-long result exactly `[p, p+1)` of the position `p`
-  the plain string shows (a wrong position is seen even when the character there happens to be the same).
+  the plain string shows (a wrong position is seen even when the character there happens to be the same);
+* CARRIER ops anywhere in a chain (Sequence kinds): `copy()`, `copy(exclude_annotations=True)`, `copy(sliced=False)`,
+  `deserialise_object(seq.to_rich_dict())`, `deserialise_object(seq.to_json())` -- read-only methods that hand back
+  "the same sequence" through the view's rich dict / a truncated parent.  The oracle leaves string, positions and
+  orientation unchanged, so the carried object must display the same string and report the same parent segment of the
+  ORIGINAL parent (annotation offsets 0 and 7, forward and reversed, strided, 1-long), and every later slice / index /
+  rc on it must keep agreeing.
 """
 from __future__ import annotations
 
@@ -25,6 +31,14 @@ import itertools
 from .common import add_failure, bump
 
 SEQ_KINDS = ("old", "new", "newcoll")
+CARRIERS = ("copy", "copy_ex", "copy_unsliced", "rd", "json")
+
+
+def carriers_for(kind):
+    """collection-held sequences: only copy(sliced=False).  copy() / rich-dict round trips of a sliced collection member are
+    listed findings (C01-seqdataview-copy-mutates-view, C01-seqdataview-rich-dict-double-slice), pinned by their witnesses
+    on fresh objects every run; copy() there even MUTATES the shared view, so it must not be interleaved with other checks"""
+    return ("copy_unsliced",) if kind == "newcoll" else CARRIERS
 VIEW_KINDS = ("vold", "vnew", "vsdv")
 _COMP = {
     "dna": str.maketrans("ACGTUacgtuNRYSWKMBDHV-?", "TGCAAtgcaaNYRSWMKVHDB-?"),
@@ -76,6 +90,8 @@ def _oracle(st, op):
         return st.cur[op[1]], [st.pos[op[1]]], st.rev
     if k == "rc":
         return comp(st.cur[::-1]), st.pos[::-1], (not st.rev)
+    if k in CARRIERS:
+        return st.cur, st.pos, st.rev
     raise ValueError(k)
 
 
@@ -85,7 +101,21 @@ def _apply(obj, op):
         return obj[slice(op[1], op[2], op[3])]
     if k == "i":
         return obj[op[1]]
-    return obj.rc()
+    if k == "rc":
+        return obj.rc()
+    if k == "copy":
+        return obj.copy()
+    if k == "copy_ex":
+        return obj.copy(exclude_annotations=True)
+    if k == "copy_unsliced":
+        return obj.copy(sliced=False)
+    from cogent3.util.deserialise import deserialise_object
+
+    if k == "rd":
+        return deserialise_object(obj.to_rich_dict())
+    if k == "json":
+        return deserialise_object(obj.to_json())
+    raise ValueError(k)
 
 
 def _value(st, obj):
@@ -233,7 +263,8 @@ def index_stream(ctx, out, budget):
     out["rule"] += (
         "; plus stream `index`: length-aware shaping ops then integer indices covering [-L-1, L] (exhaustive box on 10-mers: 1 or 2 "
         "shaping ops x every index) and seeded random chains with in-range negative / non-negative / boundary / far indices and "
-        "follow-up ops on the 1-long result, on old/new/collection-held sequences and the three bare view classes, position-exact "
+        "follow-up ops on the 1-long result, carrier ops (copy / copy(sliced=False) / rich-dict and json round trip) anywhere in the "
+        "chain, on old/new/collection-held sequences and the three bare view classes, position-exact "
         "oracle (string + parent positions) after every op; non-trivial = an in-range index on a view of length >= 2"
     )
     # ---- exhaustive box --------------------------------------------------------------------------------------
@@ -241,6 +272,7 @@ def index_stream(ctx, out, budget):
     A = [None, 1, 2]
     B = [None, 7, 8, 9, -1]
     C = [1, 2, 3, 4, -1, -2, -3, -4]
+    ncar = ctx.seed
     for kind in SEQ_KINDS + VIEW_KINDS:
         mt = "dna"
         text = "ACGGTCATTG"
@@ -271,6 +303,21 @@ def index_stream(ctx, out, budget):
                 if v is None:
                     continue
                 L = len(v.cur)
+                if kind in SEQ_KINDS:
+                    # one carrier per view (rotating), then the view's last and first element through the carried object
+                    ncar += 1
+                    car = carriers_for(kind)[ncar % len(carriers_for(kind))]
+                    cv, prob = step(v, [car])
+                    out["evaluations"] += 1
+                    bump(out, "index_carrier", car)
+                    if prob:
+                        _fail(out, kind, mt, text, offset, prob)
+                    elif cv is not None:
+                        for i in (-1, 0):
+                            _, prob = step(cv, ["i", i])
+                            out["evaluations"] += 1
+                            if prob:
+                                _fail(out, kind, mt, text, offset, prob)
                 for i in range(-L - 1, L + 1):
                     r, prob = step(v, ["i", i])
                     out["evaluations"] += 1
@@ -295,6 +342,9 @@ def index_stream(ctx, out, budget):
             continue
         nucleic = mt in ("dna", "rna") and kind in SEQ_KINDS
         plan = ["shape"] * rng.choice([0, 1, 1, 1, 2, 2, 3]) + ["index"] + rng.choice([[], [], ["follow"], ["follow", "index"], ["shape", "index"]])
+        if kind in SEQ_KINDS and rng.random() < 0.35:
+            # a carrier somewhere before the (last) index: the carried object is then sliced / indexed further
+            plan.insert(rng.randint(0, len(plan) - 1), "carrier")
         hit = False
         for what in plan:
             L = len(st.cur)
@@ -302,6 +352,9 @@ def index_stream(ctx, out, budget):
                 op = ["rc"] if nucleic and rng.random() < 0.2 else shape_op(rng, L)
             elif what == "index":
                 op = index_op(rng, L)
+            elif what == "carrier":
+                op = [rng.choice(carriers_for(kind))]
+                bump(out, "index_carrier", op[0])
             else:
                 op = rng.choice([f for f in FOLLOW if nucleic or f != ["rc"]])
             view_len, strided = L, len(st.pos) > 1 and abs(st.pos[1] - st.pos[0]) > 1
